@@ -1,6 +1,6 @@
 ------------------------ MODULE StdioLifecycleTrace ------------------------
 (* Real stdio_client runs with real child processes and the real clock.  Events:              *)
-(*   Entered | EnterRaised(exc)                                                               *)
+(*   Entered | EnterRaised(exc) | EnterCancelled                                              *)
 (*   ExitBegin(path, moment)  Terminate  Kill  Waited(dtBucket)   (process proxy)             *)
 (*   Broke(exc): the caller's enclosing task group could not be left after the exit           *)
 (*   Returned(dtBucket: tenths of a second)  ChildState(s)  FdDelta(n)  Pending(kind)         *)
@@ -29,6 +29,7 @@ Keep == UNCHANGED vars
 TNext ==
   \/ Is("Entered") /\ Consume /\ Keep /\ obs' = [obs EXCEPT !.entered = "yes"]
   \/ Is("EnterRaised") /\ Consume /\ Keep /\ obs' = [obs EXCEPT !.entered = "raised"]
+  \/ Is("EnterCancelled") /\ Consume /\ Keep /\ obs' = [obs EXCEPT !.entered = "cancelled"]    \* the surrounding timeout fired during entry
   \/ Is("ExitBegin") /\ Consume /\ Keep /\ obs' = obs
   \/ Is("Terminate") /\ Consume /\ Keep /\ obs' = [obs EXCEPT !.nterm = @ + 1]
   \/ Is("Kill") /\ Consume /\ Keep
